@@ -16,6 +16,7 @@ import (
 	"flag"
 	"fmt"
 	"math/big"
+	"runtime"
 	"strings"
 	"time"
 
@@ -278,6 +279,7 @@ func main() {
 	step := flag.Int64("step", 1, "bin step (rows)")
 	tmo := flag.Int("timeout", 20, "wall-clock seconds per call")
 	flag.Parse()
+	runtime.GOMAXPROCS(2) // other builders share the machine
 	timeout = time.Duration(*tmo) * time.Second
 	codec.UpgradeFeatureMap[codec.RSCALKey] = 1
 	r := gen.New(*seed)
